@@ -27,6 +27,7 @@
 #include <stddef.h>
 
 #include "authenticate.h"
+#include "alloc.h"
 #include "compiler.h"
 #include "groups.h"
 #include "jet_string.h"
@@ -72,17 +73,22 @@ cJSON *handle_authentication(struct peer *p, const cJSON *request)
 		return create_error_response_from_request(p, request, INVALID_PARAMS, "invalid credentials", user->valuestring);
 	}
 
+	char *user_name = duplicate_string(user->valuestring);
+	if (user_name == NULL) {
+		return create_error_response_from_request(p, request, INTERNAL_ERROR, "reason", "not enough memory to allocate user name");
+	}
+
+	if (p->user_name != NULL) {
+		cjet_free(p->user_name);
+	}
+	p->user_name = user_name;
+
 	const cJSON *fetch_groups = cJSON_GetObjectItem(auth, "fetchGroups");
 	p->fetch_groups = get_groups(fetch_groups);
 	const cJSON *set_groups = cJSON_GetObjectItem(auth, "setGroups");
 	p->set_groups = get_groups(set_groups);
 	const cJSON *call_groups = cJSON_GetObjectItem(auth, "callGroups");
 	p->call_groups = get_groups(call_groups);
-
-	p->user_name = duplicate_string(user->valuestring);
-	if (p->user_name == NULL) {
-		return create_error_response_from_request(p, request, INTERNAL_ERROR, "reason", "not enough memory to allocate user name");
-	}
 
 	return create_success_response_from_request(p, request);
 }
